@@ -185,6 +185,7 @@ func (r *Batcher) Enqueue(op IOperation) error {
 
 	// increment the target
 	r.incTarget(int(op.Cost()))
+	verifPoint("enqueue:counted", op)
 
 	// put into the buffer
 	if r.errorOnFullBuffer {
